@@ -47,7 +47,11 @@ def eigenvalue_decomposition(C, is_inverse=False, eps=1e-10):
     eigenvalues = eigenvalues[index]
     eigenvectors = eigenvectors[:, index]
 
-    # set tolerance limit
+    # set tolerance limit (eigenvalues of single precision input are only
+    # resolved to ~1e-7 of the largest one: an eps below that would keep
+    # round-off of an exactly null direction as a "positive" eigenvalue)
+    if np.issubdtype(eigenvalues.dtype, np.floating):
+        eps = max(eps, 100 * np.finfo(eigenvalues.dtype).eps)
     limit = np.max(np.abs(eigenvalues)) * eps
 
     # select positive eigenvalues
